@@ -149,6 +149,18 @@ def RState.addOpt (s : RState) (o : EOpt) (pad optSize tsigSize : Nat) : Step :=
     { s with wasPadded := true }.addRRset ConstsC03.secADDITIONAL (optRRset o')
   else s.addRRset ConstsC03.secADDITIONAL (optRRset o)
 
+/-- `Renderer._write_tsig` — the route of `add_tsig` / `add_multi_tsig`, the MAC being given: the owner name is written
+without the compression table (and leaves it alone) iff padding was applied, because the `tsig_size` the padding was
+computed from assumes an uncompressed owner; ARCOUNT is patched in place -/
+def RState.writeTsig (s : RState) (t : Tsig) : Step :=
+  let s0 : RState := if s.wasPadded then { s with tbl := [] } else s
+  match s0.addRRset ConstsC03.secADDITIONAL (tsigRRset t) with
+  | .err e => .err e
+  | .tooBig r => .tooBig (if s.wasPadded then { r with tbl := s.tbl } else r)
+  | .ok r =>
+    let r1 : RState := if s.wasPadded then { r with tbl := s.tbl } else r
+    .ok { r1 with out := r1.out.take 10 ++ u16 r1.counts.c3 ++ r1.out.drop 12 }
+
 /-- `write_header` -/
 def RState.writeHeader (s : RState) : RState :=
   { s with out := u16 s.id ++ u16 s.flags ++ u16 s.counts.c0 ++ u16 s.counts.c1 ++ u16 s.counts.c2
